@@ -1,6 +1,6 @@
 (* C16 -- property theorems (statements only). *)
 From Coq Require Import ZArith QArith List.
-From OMV Require Import Base.Val C15.Model C15.Proofs1D C16.Model C16.Proofs.
+From OMV Require Import Base.Val C15.Model C15.Proofs1D C16.Model C16.Linear C16.Proofs C16.ProofsND.
 Import ListNotations.
 Open Scope Z_scope.
 Open Scope Q_scope.
@@ -31,7 +31,8 @@ Theorem C16_grad_head_partial : forall (m : method) (g : list Q) (gs : list (lis
 Proof. exact grad_head_is_formal_derivative. Qed.
 Print Assumptions C16_grad_head_partial.
 
-(* The interpolant is linear in the table values ... *)
+(* The interpolant is linear in the table values (slinear, lagrange2, lagrange3 and the natural cubic
+   spline, the latter through the tridiagonal forward / reverse pass) ... *)
 Theorem C16_linear_in_values : forall (m : method) (g : list Q) (idx : Z) (x : Q) (us vs ws : list Q) (a : Q),
   linear_method m -> (kmin m <= zlen g)%Z -> (0 <= idx)%Z ->
   (forall k, (0 <= k)%Z -> vq us k == a * vq vs k + vq ws k) ->
@@ -53,3 +54,23 @@ Theorem C16_linear_decomposition : forall (L : list Q -> Q) (vs : list Q),
   linearL L -> L vs == dotq (map (fun k => L (unitn (length vs) k)) (seq 0 (length vs))) vs.
 Proof. exact linear_decomp. Qed.
 Print Assumptions C16_linear_decomposition.
+
+(* Tables of any dimension (induction on the dimension), slinear / lagrange2 / lagrange3 / cubic: EVERY entry j of
+   the returned gradient is the formal derivative of the tensor-product interpolant with respect to
+   coordinate j, as a function of that coordinate (other coordinates, cells and table arbitrary). *)
+Theorem C16_gradient_is_formal_derivative : forall (m : method), linear_method m ->
+  forall (gs : list (list Q)) (idxs : list Z) (xs : list Q) (T : tensor) (j : nat),
+  Forall (gok m) gs -> Forall2 iok gs idxs -> length xs = length gs -> (j < length gs)%nat ->
+  is_fderiv (fun t => evalND m gs idxs (upd xs j t) T)
+            (fun t => nth j (gradND m gs idxs (upd xs j t) T) 0).
+Proof. exact gradND_is_formal_derivative. Qed.
+Print Assumptions C16_gradient_is_formal_derivative.
+
+(* InterpND.training_gradients in any dimension: the outer product of the one-dimensional unit-table
+   evaluations (each with its own fresh bracket search) is the coefficient vector of the interpolant in the
+   (row-major flattened) table values. *)
+Theorem C16_training_gradients_are_coefficients : forall (m : method) (gs : list (list Q)) (xs : list Q) (T : tensor),
+  linear_method m -> Forall (gok m) gs -> length xs = length gs -> shaped gs T ->
+  evalND m gs (brackets gs (zeros gs) xs) xs T == dotq (train_flat m gs xs [1]) (tflat T).
+Proof. exact training_gradients_are_coefficients. Qed.
+Print Assumptions C16_training_gradients_are_coefficients.
